@@ -322,5 +322,53 @@ CHECKS["C13"] = {
     ],
 }
 
+_WALLET_NOTE = ("Trusted: the mints (their own properties are C01-C16), the Lightning model, the in-process HTTP router installed as http.DefaultTransport, bbolt. "
+                "Wallet mnemonics, quote ids and locked-output nonces are random inside gonuts; the harness refers to them by position and no oracle depends on them. ")
+
+CHECKS["C17"] = {
+    "pkg": "./checks/c17",
+    "level": "exploration",
+    "technique": "model-based stateful property testing (rapid) of real wallets against real mints over an in-process HTTP transport, with mint-side state as oracle",
+    "rule": ("rapid state machine over 2-3 real wallet.Wallet instances and 1-2 real mints (fee ppk in {0,100,1000}, LN fee reserve 0 or 1%): mint, send (offline selection and swap, with/without fees), send to pubkey (P2PK, optional SIG_ALL), HTLC send (n_sigs=1, receiver key listed), receive (same mint, other trusted mint, untrusted mint with swap to trusted), ReceiveHTLC, melt with LN outcome {success, pending, failed, transport error none/inflight}, CheckMeltQuoteState, LN resolution, reclaim, remove-spent, MintSwap with LN {success, failed, pending}, keyset rotation at a mint, wallet restart; tokens travel as serialised V4/V3 strings with and without DLEQ. "
+             "oracle after every step, from the inner bbolt handles and the mints' own ProofsStateCheck and issued/redeemed sums: (1) GetBalance = sum of stored spendable proofs = sum of GetBalanceByMints and every spendable proof is UNSPENT at its mint; (2) no secret spendable and pending in one wallet, none spendable in two wallets; (3) PendingBalance = value of the proofs handed out by Send or locked in a melt / cross-mint swap and not yet reconciled (set equality by secret); (4) conservation per mint: value of all secrets held by wallets (spendable or pending) or in tokens the harness holds that are not SPENT at the mint = issued - redeemed there. "
+             "non-trivial: history with a receive between different wallets and a melt, or a rotation followed by a send; distinct = hash of the trace."),
+    "level_text": "Generated multi-wallet, multi-mint histories with generated Lightning outcomes against the real wallet and mint code; balances and conservation are recomputed from storage and from the mints after every step and failures shrink to a short history.",
+    "level_note": _WALLET_NOTE + "Locked proofs handed out by SendToPubkey/HTLCLockedProofs are treated as tokens returned to the caller (the sender cannot reclaim them) and are not part of the expected pending balance.",
+    "assumptions": ["honest mints; fault-free wallet storage and transport (wallet crashes are C19)", "expected pending set after cross-mint operations and partially failed reclaims is adopted from storage (loss / double counting is still caught by conservation and disjointness)"],
+    "units": [
+        rapid("history", "^TestHistory$", 192, 5000, qs=16, ts=16, qtimeout=1500, ttimeout=5000),
+    ],
+}
+
+CHECKS["C08"] = {
+    "pkg": "./checks/c08",
+    "level": "exploration",
+    "technique": "model-based stateful property testing (rapid) with inspection of every byte of every HTTP request the wallets send (taint search for known blinding factors + structural JSON rules)",
+    "rule": ("the C17 wallet history machine (all flows: mint, send offline / via swap, P2PK and HTLC sends incl. SIG_ALL, receive same mint / trusted / untrusted with swap to trusted, ReceiveHTLC, melt incl. NUT-08 blank outputs with all LN outcomes, reclaim, remove-spent, MintSwap, restore) with tokens passed with and without DLEQ; every request recorded by the in-process transport is inspected: "
+             "(1) no occurrence (hex any case, raw 32 bytes, base64) of any blinding factor known to the harness - from every proof the wallets ever stored (storage proxy), from every token returned to the caller; (2) no JSON key r, and no dleq object at all on an input (e and s identify the mint's signature); (3) secrets of wallet outputs appear only as inputs[].secret of /v1/swap and /v1/melt/bolt11; restore requests carry B_, id, amount only; checkstate requests carry Ys only. "
+             "non-trivial: a request with a non-empty inputs list sent by a wallet whose stored proofs carry r; distinct = (flow, endpoint, DLEQ presence)."),
+    "level_text": "Generated wallet histories; the transport hands every request body to the oracle, which searches it for every blinding factor the harness knows and applies structural rules.",
+    "level_note": _WALLET_NOTE + "A re-encoding of r other than hex / raw / base64 would escape the byte search (the structural rules still catch dleq objects).",
+    "assumptions": ["blinding factors known to the harness = those stored by the wallets or returned in tokens"],
+    "units": [
+        rapid("history", "^TestHistory$", 160, 4000, qs=16, ts=16, qtimeout=1500, ttimeout=5000),
+    ],
+}
+
+CHECKS["C19"] = {
+    "pkg": "./checks/c19",
+    "level": "exploration",
+    "technique": "model-based stateful property testing (rapid) with wire-level output tracking and an independent computation of the restorable value; wallet crash-point enumeration",
+    "rule": ("(a) the wallet history machine with a churn action (send 3/4 of the balance to self and receive: many fresh outputs), restore (wallet.Restore of a wallet's mnemonic into an empty directory, the restored wallet then replaces the original and continues, so restore-of-a-restored-wallet occurs) and rotation; "
+             "oracle: no output B_ is submitted for signing after a response carried a signature for it (per seed, from the transport log); after every step the stored counter of every keyset is past every signed counter (outputs re-derived per seed/keyset, cross-checked against the reference derivation); after every restore: restored spendable + pending = value of the seed's deterministic outputs (counters 0..stored+400 per keyset) that the mint signed and reports UNSPENT or PENDING, computed from the mint's tables and state check. "
+             "non-trivial: history in which >=1 output was signed; classes record restores, restores of restored wallets, >300 outputs on a keyset; distinct = hash of the trace. (b) crash enumeration: classes crash_*."),
+    "level_text": "Generated histories incl. restore chains against the real wallet and mint; counter discipline is read off the wire and storage, restore completeness is compared with an independent enumeration of the seed's outputs at the mint.",
+    "level_note": _WALLET_NOTE + "Output derivation for the oracle uses the repository's nut13 code (fast) cross-checked against harness/ref for the first counters of every keyset; C11 establishes their equality in general.",
+    "assumptions": ["restore scans are compared up to stored counter + 400"],
+    "units": [
+        rapid("history", "^TestHistory$", 128, 1500, qs=16, ts=16, qtimeout=1500, ttimeout=5000),
+    ],
+}
+
 NOT_APPLICABLE = {}
 HOOK_COMMITS = []
